@@ -64,6 +64,18 @@ Proof. exact conflict_free_accepted. Qed.
 Theorem format4_build_refuted : exists input, valid_input input /\ conflict_free input /\ from_mappings input = Panic.
 Proof. exact format4_build_refuted_lemma. Qed.
 
+(* skrifa Charmap::map through subtable selection and the .notdef filter. *)
+Theorem charmap_map_answers : forall input o4 o12, valid_input input -> from_mappings input = Built o4 o12 ->
+  forall c, 0 <= c -> c <> 65535 -> charmap_map (records_of o4 o12) c = assoc c (canon input).
+Proof. exact charmap_map_answers_lemma. Qed.
+(* skrifa Charmap::mappings when a format-12 subtable exists: exactly the sorted input pairs — provided
+   no pair is for U+10FFFF (which the iterator limits drop: finding) and glyph ids are below the glyph count.
+   PARTIAL: the format-4-selected case (BMP-only fonts) has no theorem (model + correspondence + oracle). *)
+Theorem charmap_mappings_exact_f12_partial : forall input o4 gs ng, valid_input input -> from_mappings input = Built o4 (Some gs) ->
+  (forall c g, In (c, g) input -> c < 1114111 /\ g < ng) ->
+  charmap_mappings (records_of o4 (Some gs)) ng = canon input.
+Proof. exact charmap_mappings_exact_f12_lemma. Qed.
+
 Print Assumptions cmap4_answers.
 Print Assumptions cmap4_answers_in.
 Print Assumptions segments_partition.
@@ -76,3 +88,5 @@ Print Assumptions cmap_answers.
 Print Assumptions conflict_sound.
 Print Assumptions conflict_free_never_rejected.
 Print Assumptions format4_build_refuted.
+Print Assumptions charmap_map_answers.
+Print Assumptions charmap_mappings_exact_f12_partial.
